@@ -1,15 +1,22 @@
-(* C13 -- Packets are independent and pack/unpack are observationally pure.  (PARTIAL: see below.)
-   In the functional model a packet is a value, so one packet cannot change another by construction; the only state
-   OUTSIDE packets is what field objects remember between calls: `dstate`, the delimiter of a regex-delimited field
-   whose delimiter is not kept in the value (written by unpack: ghost item TDelim; read by pack).  The theorems show
-   that for every other declaration nothing is ever written to or read from it, that pack leaves every declared field
-   unchanged, and that packing again returns the same bytes.
-   NOT expressible in the model, checked on the implementation only (harness/props/C13.py): aliasing of mutable
-   sub-objects (values have no identity), real thread interleavings.  Findings D8 (the dstate itself) and D9 (a deferred
-   selector hands out one shared packet object) are KNOWN-FINDINGs. *)
+(* C13 -- Packets are independent and pack/unpack are observationally pure.  (PARTIAL: see the end of this comment.)
+   Two models.
+   (a) Model/World.v: in the functional model a packet is a value; the only state OUTSIDE packets is what field objects
+       remember between calls: `dstate`, the delimiter of a regex-delimited field whose delimiter is not kept in the value
+       (written by unpack: ghost item TDelim; read by pack).  Theorems: for every other declaration nothing is ever written
+       to or read from it, pack leaves every declared field unchanged, packing again returns the same bytes.
+   (b) Model/Heap.v: packets and lists as OBJECTS (cells with addresses), the operations of a user on live packets
+       (construct, parse, re-parse, assign, append, serialize) with their aliasing behaviour, and the ghost set `shared` of
+       objects the user put in two places.  Theorems (Proofs/HeapProofs.v): construct / parse allocate only fresh cells; after
+       EVERY history two live packets have in common only what hangs below an object of `shared` (nothing at all if the user
+       never hands over an object of a live packet); an operation on one packet leaves every other live packet's tree as it
+       was unless the written cell hangs below a shared object; serializing writes no cell.  The model's aliasing behaviour is
+       tied to bisturi by the identity correspondence of harness/props/C13.py (which (packet, path) pairs are one object
+       after every operation of a history) and by the template kernels of init / Ref / Prototype.
+   PARTIAL: real thread interleavings (bytecode level, under the GIL) are not expressible in either model; they are
+   exercised on the implementation only.  Finding D8 (the dstate itself) is a KNOWN-FINDING; D9 was repaired. *)
 From Coq Require Import ZArith List Bool.
 From Bisturi Require Import Base.Bytes Kernel.Frag Model.Value Model.Decl Model.Unpack Model.Pack Model.Codegen Model.World
-                            Proofs.WorldProofs.
+                            Model.Init Model.Canon Model.Heap Proofs.WorldProofs Proofs.HeapProofs.
 Import ListNotations. Open Scope Z_scope.
 
 (* parsing writes no class-level state (every regex delimiter kept in the value) ... *)
@@ -45,7 +52,63 @@ Theorem C13_pack_twice_refuted_hidden_read :
        exists s'', pack_any_top fuel host dl ct c s' = PBytes b (VPkt c s'')).
 Proof. exact pack_twice_refuted_hidden_read. Qed.
 
+(* ---- (b) packets as objects ---- *)
+(* constructing / parsing builds its result out of fresh cells only and touches nothing that exists *)
+Theorem C13_alloc_fresh : forall v h x h',
+  h_valid h -> alloc_tree v h = (x, h') ->
+  h_valid h' /\ next h <= next h' /\
+  (forall a, a < next h -> h_get h' a = h_get h a) /\
+  (forall b, reach h' x b -> next h <= b < next h').
+Proof. exact alloc_tree_fresh. Qed.
+Theorem C13_alloc_read : forall v h x h',
+  h_valid h -> alloc_tree v h = (x, h') -> exists k, forall n, (k <= n)%nat -> read_tree n h' x = Some v.
+Proof. exact alloc_tree_read. Qed.
+(* after every history of construct / parse / re-parse / assign / append / serialize operations, whatever two live packets
+   have in common hangs below an object the user put in two places *)
+Theorem C13_history_separated : forall host ct ops,
+  let w := fold_left (w_run1 host ct) ops w_empty in w_valid w /\ separated w.
+Proof. exact history_separated. Qed.
+(* ... and nothing at all if the user never hands over an object taken from a live packet *)
+Theorem C13_history_disjoint : forall host ct ops,
+  forallb op_no_share ops = true ->
+  let w := fold_left (w_run1 host ct) ops w_empty in
+  forall r1 r2 a1 a2 b, r1 <> r2 -> root_get (roots w) r1 = Some a1 -> root_get (roots w) r2 = Some a2 ->
+    reach (hp w) (HRef a1) b -> reach (hp w) (HRef a2) b -> False.
+Proof. exact history_disjoint. Qed.
+(* an operation leaves another live packet exactly as it was unless the cell it writes is reachable from that packet *)
+Theorem C13_step_local : forall host ct w o w' r2 a2 fuel,
+  w_valid w -> w_step host ct w o = Some w' ->
+  root_get (roots w) r2 = Some a2 ->
+  (match o with WNew r _ | WParse r _ _ _ | WReparse r _ => r <> r2 | _ => True end) ->
+  (forall b, written_cell w o = Some b -> ~ reach (hp w) (HRef a2) b) ->
+  root_get (roots w') r2 = Some a2 /\ read_tree fuel (hp w') (HRef a2) = read_tree fuel (hp w) (HRef a2).
+Proof. exact step_local. Qed.
+(* with separation: assigning into one packet (not below a shared object) changes no other live packet *)
+Theorem C13_set_changes_only_its_packet : forall host ct w r p last x w' r2 a2 b fuel,
+  w_valid w -> separated w -> w_step host ct w (WSet r p last x) = Some w' ->
+  r2 <> r -> root_get (roots w) r2 = Some a2 ->
+  written_cell w (WSet r p last x) = Some b ->
+  (forall s, In s (shared w) -> ~ reach (hp w) (HRef s) b) ->
+  read_tree fuel (hp w') (HRef a2) = read_tree fuel (hp w) (HRef a2).
+Proof. exact set_changes_only_its_packet. Qed.
+(* serializing writes no cell *)
+Theorem C13_pack_writes_no_cell : forall host ct w r w', w_step host ct w (WPack r) = Some w' -> w' = w.
+Proof. exact pack_writes_nothing. Qed.
+(* `separated` alone is not preserved by a step (a path below a shared object can be cut): the inductive invariant is
+   `tree_like` (at most one parent unless shared); the refutation is machine-checked *)
+Example C13_separated_alone_not_inductive :
+  w_valid cut_world /\ separated cut_world /\ w_step true [] cut_world cut_op = Some cut_world' /\
+  ~ separated cut_world' /\ ~ tree_like cut_world.
+Proof. exact cut_counterexample. Qed.
+
 Print Assumptions C13_parse_writes_nothing.
+Print Assumptions C13_alloc_fresh.
+Print Assumptions C13_alloc_read.
+Print Assumptions C13_history_separated.
+Print Assumptions C13_history_disjoint.
+Print Assumptions C13_step_local.
+Print Assumptions C13_set_changes_only_its_packet.
+Print Assumptions C13_pack_writes_no_cell.
 Print Assumptions C13_pack_reads_nothing.
 Print Assumptions C13_pack_preserves_fields.
 Print Assumptions C13_pack_twice.
